@@ -71,6 +71,7 @@ impl Db {
             })
             .expect("register");
         }
+        conn.create_scalar_function("PI", 0, det, move |_| Ok(SV::Real(std::f64::consts::PI))).expect("register");
         conn.create_scalar_function("REGEXP", 2, det, move |ctx| {
             // only literal-substring patterns are used by the harness
             let (p, s) = (ctx.get_raw(0), ctx.get_raw(1));
